@@ -56,8 +56,7 @@ func (p c03) Run(c *core.Ctx, idx int) {
 	cmp := dp.CmpOpts{}
 	if storeKind > 0 {
 		gm = dp.GoModes[storeKind-1]
-		o.Types, o.KeyTypes = dp.GoTypes(gm), dp.GoKeyTypes(gm)
-		o.CompoundKeys = gm.Shape == "struct"
+		dp.GoGen(&o, gm)
 		o.Defaults = gm.Shape == "map"
 		cmp = dp.CmpOpts{IgnoreListOrder: true}
 	}
